@@ -31,10 +31,13 @@ static char *vp_strdup3(const char *s) {
 static const char *const vp_pool[] = { VP_POOL };
 #define VP_POOL_N (sizeof vp_pool / sizeof vp_pool[0])
 int vp_live; unsigned vp_parsed; unsigned vp_scalars;
+/* event log for clauses that speak about the stream: type and pool index of event k, whether the stream ended by a parse failure */
+unsigned char vp_ev_type[32], vp_ev_val[32]; _Bool vp_parse_failed;
+#define VP_EV_IS(k, str) ((k) < vp_parsed && vp_ev_type[k] == YAML_SCALAR_EVENT && vp_strcmp3(vp_pool[vp_ev_val[k]], (str)) == 0)
 int yaml_parser_parse(yaml_parser_t *parser, yaml_event_t *event) {
 	__CPROVER_assert(vp_live == 0, "C13.yaml.previous_event_released_before_the_next_is_parsed");
-	if (vp_parsed >= VP_MAX_EVENTS) return 0;
-	_Bool ok; if (!ok) return 0;
+	if (vp_parsed >= VP_MAX_EVENTS) { vp_parse_failed = 1; return 0; }
+	_Bool ok; if (!ok) { vp_parse_failed = 1; return 0; }
 	vp_parsed++; vp_live = 1;
 	unsigned t; __CPROVER_assume(t <= YAML_MAPPING_END_EVENT);
 #ifdef VP_SCRIPT
@@ -51,6 +54,7 @@ int yaml_parser_parse(yaml_parser_t *parser, yaml_event_t *event) {
 	if (vp_forced != 255) k = vp_forced;
 #endif
 	event->data.scalar.value = (yaml_char_t *)vp_pool[k];
+	if (vp_parsed - 1 < 32) { vp_ev_type[vp_parsed - 1] = (unsigned char)t; vp_ev_val[vp_parsed - 1] = (unsigned char)k; }
 	if (t == YAML_SCALAR_EVENT) vp_scalars++;
 	return 1;
 }
